@@ -25,7 +25,10 @@ tvars == <<l, active, refr, stream, exact, delivered, items, failed, gupos>>
 RECURSIVE IsSubseq(_, _)
 IsSubseq(a, b) == IF a = <<>> THEN TRUE ELSE IF b = <<>> THEN FALSE
                   ELSE IF Head(a) = Head(b) THEN IsSubseq(Tail(a), Tail(b)) ELSE IsSubseq(a, Tail(b))
-ItemsOk(got, want) == CASE stream = "all" -> got = want [] stream = "some" -> IsSubseq(got, want) [] OTHER -> TRUE
+\* "whole": parse() returned one value; its entries in file order (pitem records) are the reference's when the
+\* run ended cleanly (nothing is handed out when it failed)
+ItemsOk(got, want) == CASE stream = "all" -> got = want [] stream = "some" -> IsSubseq(got, want)
+                        [] stream = "whole" -> (failed = "" => got = want) [] OTHER -> TRUE
 R == Rec[l]
 IsEv(e) == l <= Len(Rec) /\ R.ev = e /\ l' = l + 1
 NonItems == {<<"nohdr">>, <<"section">>, <<"nocomment">>}
@@ -40,7 +43,8 @@ TReset ==
   \* the reference reading of the whole input, once per run
   /\ refr' = (IF active' THEN ReadLocE(R.input, R.parser \in {"aig", "aig_parse", "aig_skip"}, R.lit) ELSE <<"none">>)
   /\ stream' = (IF R.kind = "parser" /\ R.parser \in {"aag", "aig"} THEN "all"
-                ELSE IF R.kind = "parser" /\ R.parser \in {"aag_skip", "aig_skip"} THEN "some" ELSE "none")
+                ELSE IF R.kind = "parser" /\ R.parser \in {"aag_skip", "aig_skip"} THEN "some"
+                ELSE IF R.kind = "parser" /\ R.parser \in {"aag_parse", "aig_parse"} THEN "whole" ELSE "none")
   /\ exact' = (active' /\ R.policy = "fixed1" /\ ~R.bufreader)
   /\ delivered' = 0
   /\ items' = <<>> /\ failed' = "" /\ gupos' = -1
@@ -50,9 +54,15 @@ TSrc ==
   /\ delivered' = delivered + R.n
   /\ UNCHANGED <<active, refr, stream, exact, items, failed, gupos>>
 
+\* one entry of the value parse() returned
+TPItem ==
+  /\ active /\ IsEv("pitem")
+  /\ items' = Append(items, R.item)
+  /\ UNCHANGED <<active, refr, stream, exact, delivered, failed, gupos>>
+
 TRet ==
   /\ active /\ IsEv("pret")
-  /\ items' = IF R.res \in {"ok", "some"} /\ R.item \notin NonItems THEN Append(items, R.item) ELSE items
+  /\ items' = IF R.res \in {"ok", "some"} /\ R.item \notin NonItems /\ stream # "whole" THEN Append(items, R.item) ELSE items
   \* C09: the entry just handed out is complete at Ends[i]; nothing behind that has been pulled
   /\ (exact /\ stream = "all" /\ items' # items /\ Len(items') <= Len(refr[2])) => delivered <= refr[2][Len(items')][2]
   /\ failed' = (IF failed # "" THEN failed ELSE IF R.res = "panic" THEN "panic" ELSE IF R.res = "err" THEN R.kind ELSE "")
@@ -75,12 +85,12 @@ TEnd ==
 TSkip ==
   /\ l <= Len(Rec) /\ l' = l + 1
   /\ \/ ~active /\ R.ev # "reset"
-     \/ active /\ R.ev \notin {"reset", "pret", "pend", "gu", "src"}
+     \/ active /\ R.ev \notin {"reset", "pret", "pend", "gu", "src", "pitem"}
   /\ UNCHANGED <<active, refr, stream, exact, delivered, items, failed, gupos>>
 
 TInit == l = 1 /\ active = FALSE /\ refr = <<"none">> /\ stream = "none" /\ exact = FALSE /\ delivered = 0
          /\ items = <<>> /\ failed = "" /\ gupos = -1
-TNext == TReset \/ TSrc \/ TRet \/ TGu \/ TEnd \/ TSkip
+TNext == TReset \/ TSrc \/ TRet \/ TPItem \/ TGu \/ TEnd \/ TSkip
 TSpec == TInit /\ [][TNext]_tvars
 
 Accepted ==
